@@ -333,7 +333,7 @@ func (e *engine) verify(fc *funcContract, props []string) *vc {
 	var reqs []string
 	for _, r := range fc.requires {
 		se := v.newSpecEnvEntry(fr, st)
-		t := se.evalBool(r.expr)
+		t := se.evalAssume(r.expr)
 		reqs = append(reqs, t)
 		v.rawFact(t)
 	}
@@ -364,7 +364,7 @@ func (v *vc) atReturn(fr *frame, st *state, vals []string, k int) {
 	se := v.newSpecEnv(fr, st, nil)
 	se.setResults(fr.fn.Signature, vals)
 	for _, e := range fc.ensures {
-		t := se.evalBool(e.expr)
+		t := se.evalGoal(e.expr)
 		v.oblige(st, "ensures", e.label, site, t, e.props)
 	}
 	if fc.hasMod {
